@@ -30,18 +30,29 @@ Record cfg := mkCfg {
   cfg_ext : list Z;         (* the security types of the four application handler objects (ids 2..5) *)
   cfg_udp_gated : bool;     (* true: rfbProcessUDPInput drops datagrams on a screen that requires a password
                                (commit 93b245e = notes/fix_C05_4.diff); false: the code before it, every well-formed datagram is input *)
+  cfg_enc_fail : bool;      (* true: the DES backend fails (encrypt_rfbdes / decrypt_rfbdes return 0): rfbEncryptBytes
+                               fails closed with random bytes, rfbDecryptPasswdFromFile returns NULL *)
+  cfg_check : list N -> list N -> bool;   (* an application-supplied passwordCheck callback: challenge -> response -> verdict
+                               (screens of mode PwCustom); arbitrary *)
   cfg_tight : bool          (* true: object 2 is the library's own tightVncSecurityHandler (type 16), registered by
                                rfbRegisterTightVNCFileTransferExtension: choosing it starts the nested TightVNC
                                tunneling / authentication-capability negotiation of rfbtightserver.c *)
 }.
+(* the custom callback of the harness: accepts iff response = challenge with every byte xor 0x5a *)
+Definition xor_check (chal resp : list N) : bool :=
+  Nat.eqb (length chal) (length resp) && forallb (fun p => N.eqb (N.lxor (fst p) 90) (snd p)) (combine chal resp).
 Definition default_ext : list Z := [16%Z; 30%Z; c05_rfbSecTypeVncAuth; c05_rfbSecTypeNone].
 (* the code with fixes 1 and 2, parametrised by the list-handling variant and the application types *)
-Definition cfgF (single : bool) (ext : list Z) (tight : bool) : cfg := mkCfg false false single ext true tight.
+Definition cfgF (single : bool) (ext : list Z) (tight : bool) (chk : list N -> list N -> bool) : cfg :=
+  mkCfg false false single ext true false chk tight.
+(* the same with a DES backend that fails *)
+Definition cfgE (single : bool) (ext : list Z) (tight : bool) (chk : list N -> list N -> bool) : cfg :=
+  mkCfg false false single ext true true chk tight.
 (* the same code with the UDP input path as it was before 93b245e: regression witness only *)
-Definition cfgU (single : bool) (ext : list Z) (tight : bool) : cfg := mkCfg false false single ext false tight.
-Definition cfg_fixed : cfg := cfgF false default_ext false.     (* fixes 1+2, list handling before 019f1b9: regression witness *)
-Definition cfg_fixed3 : cfg := cfgF true default_ext false.     (* /repo HEAD (019f1b9 = notes/fix_C05_3.diff) *)
-Definition cfg_legacy : cfg := mkCfg true true false default_ext false false.   (* before the fixes: regression witness only *)
+Definition cfgU (single : bool) (ext : list Z) (tight : bool) : cfg := mkCfg false false single ext false false xor_check tight.
+Definition cfg_fixed : cfg := cfgF false default_ext false xor_check.     (* fixes 1+2, list handling before 019f1b9: regression witness *)
+Definition cfg_fixed3 : cfg := cfgF true default_ext false xor_check.     (* /repo HEAD (019f1b9 = notes/fix_C05_3.diff) *)
+Definition cfg_legacy : cfg := mkCfg true true false default_ext false false xor_check false.   (* before the fixes: regression witness only *)
 
 (* ---------------------------------------------------------------- bytes *)
 Definition be16 (x : N) : list N := N_to_bytes 2 x.
@@ -232,7 +243,8 @@ Fixpoint hs_find (fuel : nat) (tys : list Z) (legacy : bool) (st : hstore) (cur 
 Inductive pwmode :=
   | PwNone                                          (* authPasswdData == NULL *)
   | PwList (pws : list (list N)) (first_vo : Z)     (* rfbCheckPasswordByList *)
-  | PwFile (content : list N).                      (* rfbDefaultPasswordCheck; < 8 bytes = unreadable *)
+  | PwFile (content : list N)                       (* rfbDefaultPasswordCheck; < 8 bytes = unreadable *)
+  | PwCustom.                                       (* authPasswdData set, passwordCheck = an application callback (cfg_check) *)
 
 Record screen := mkScreen { s_pw : pwmode; s_w : N; s_h : N; s_name : list N }.
 
@@ -255,32 +267,36 @@ Record conn := mkConn {
   c_out : list N;               (* everything written to the client so far *)
   c_ext : list nat;             (* application handlers invoked for this client *)
   c_pws : list (list N);        (* ghost: the passwords the screen accepted when the response was checked *)
-  c_told : list tok             (* ghost: what the client has been told on the wire, in order (see [say]) *)
+  c_told : list tok;            (* ghost: what the client has been told on the wire, in order (see [say]) *)
+  c_judged : option (list N * list N)   (* ghost: (challenge, response) for which a custom passwordCheck returned TRUE *)
 }.
 
 Definition set_st (c : conn) (s : cstate) : conn :=
-  mkConn (c_screen c) (c_rev c) s (c_minor c) (c_chal c) (c_sent c) (c_resp c) (c_vo c) (c_out c) (c_ext c) (c_pws c) (c_told c).
+  mkConn (c_screen c) (c_rev c) s (c_minor c) (c_chal c) (c_sent c) (c_resp c) (c_vo c) (c_out c) (c_ext c) (c_pws c) (c_told c) (c_judged c).
 Definition add_out (c : conn) (b : list N) : conn :=
-  mkConn (c_screen c) (c_rev c) (c_st c) (c_minor c) (c_chal c) (c_sent c) (c_resp c) (c_vo c) (c_out c ++ b) (c_ext c) (c_pws c) (c_told c).
+  mkConn (c_screen c) (c_rev c) (c_st c) (c_minor c) (c_chal c) (c_sent c) (c_resp c) (c_vo c) (c_out c ++ b) (c_ext c) (c_pws c) (c_told c) (c_judged c).
 Definition set_minor (c : conn) (m : Z) : conn :=
-  mkConn (c_screen c) (c_rev c) (c_st c) m (c_chal c) (c_sent c) (c_resp c) (c_vo c) (c_out c) (c_ext c) (c_pws c) (c_told c).
+  mkConn (c_screen c) (c_rev c) (c_st c) m (c_chal c) (c_sent c) (c_resp c) (c_vo c) (c_out c) (c_ext c) (c_pws c) (c_told c) (c_judged c).
 Definition set_chal (c : conn) (ch : list N) : conn :=
-  mkConn (c_screen c) (c_rev c) (c_st c) (c_minor c) ch (c_sent c) (c_resp c) (c_vo c) (c_out c) (c_ext c) (c_pws c) (c_told c).
+  mkConn (c_screen c) (c_rev c) (c_st c) (c_minor c) ch (c_sent c) (c_resp c) (c_vo c) (c_out c) (c_ext c) (c_pws c) (c_told c) (c_judged c).
 Definition set_sent (c : conn) (ch : list N) : conn :=
-  mkConn (c_screen c) (c_rev c) (c_st c) (c_minor c) (c_chal c) ch (c_resp c) (c_vo c) (c_out c) (c_ext c) (c_pws c) (c_told c).
+  mkConn (c_screen c) (c_rev c) (c_st c) (c_minor c) (c_chal c) ch (c_resp c) (c_vo c) (c_out c) (c_ext c) (c_pws c) (c_told c) (c_judged c).
 Definition set_resp (c : conn) (r : list N) : conn :=
-  mkConn (c_screen c) (c_rev c) (c_st c) (c_minor c) (c_chal c) (c_sent c) (Some r) (c_vo c) (c_out c) (c_ext c) (c_pws c) (c_told c).
+  mkConn (c_screen c) (c_rev c) (c_st c) (c_minor c) (c_chal c) (c_sent c) (Some r) (c_vo c) (c_out c) (c_ext c) (c_pws c) (c_told c) (c_judged c).
 Definition set_vo (c : conn) (v : bool) : conn :=
-  mkConn (c_screen c) (c_rev c) (c_st c) (c_minor c) (c_chal c) (c_sent c) (c_resp c) v (c_out c) (c_ext c) (c_pws c) (c_told c).
+  mkConn (c_screen c) (c_rev c) (c_st c) (c_minor c) (c_chal c) (c_sent c) (c_resp c) v (c_out c) (c_ext c) (c_pws c) (c_told c) (c_judged c).
 Definition set_pws (c : conn) (l : list (list N)) : conn :=
-  mkConn (c_screen c) (c_rev c) (c_st c) (c_minor c) (c_chal c) (c_sent c) (c_resp c) (c_vo c) (c_out c) (c_ext c) l (c_told c).
+  mkConn (c_screen c) (c_rev c) (c_st c) (c_minor c) (c_chal c) (c_sent c) (c_resp c) (c_vo c) (c_out c) (c_ext c) l (c_told c) (c_judged c).
 (* write one of the three messages: its bytes go to the wire AND the token is recorded; these are the
    only places where SecurityResult / ServerInit bytes are written *)
 Definition say (c : conn) (t : tok) (bytes : list N) : conn :=
   mkConn (c_screen c) (c_rev c) (c_st c) (c_minor c) (c_chal c) (c_sent c) (c_resp c) (c_vo c) (c_out c ++ bytes)
-         (c_ext c) (c_pws c) (c_told c ++ [t]).
+         (c_ext c) (c_pws c) (c_told c ++ [t]) (c_judged c).
+Definition set_judged (c : conn) (j : list N * list N) : conn :=
+  mkConn (c_screen c) (c_rev c) (c_st c) (c_minor c) (c_chal c) (c_sent c) (c_resp c) (c_vo c) (c_out c) (c_ext c) (c_pws c)
+         (c_told c) (Some j).
 Definition add_ext (c : conn) (k : nat) : conn :=
-  mkConn (c_screen c) (c_rev c) (c_st c) (c_minor c) (c_chal c) (c_sent c) (c_resp c) (c_vo c) (c_out c) (c_ext c ++ [k]) (c_pws c) (c_told c).
+  mkConn (c_screen c) (c_rev c) (c_st c) (c_minor c) (c_chal c) (c_sent c) (c_resp c) (c_vo c) (c_out c) (c_ext c ++ [k]) (c_pws c) (c_told c) (c_judged c).
 
 (* the part of the process a message handler may touch besides its own connection *)
 Record env := mkEnv {
@@ -504,12 +520,16 @@ Definition on_tight_auth (e : env) (c : conn) (msg : list N) : env * conn :=
 Definition password_check (cf : cfg) (s : screen) (c : conn) (resp : list N) : bool * conn :=
   match s_pw s with
   | PwNone => (false, c)
+  | PwCustom =>
+      if cfg_check cf (c_chal c) resp then (true, set_judged c (c_chal c, resp)) else (false, c)
   | PwList pws fvo =>
+      if cfg_enc_fail cf then (false, c) else    (* every auth_tmp is random bytes: no match *)
       match check_list cf pws (c_chal c) resp 0%Z with
       | Some i => (true, if (fvo <=? i)%Z then set_vo c true else c)
       | None => (false, c)
       end
   | PwFile content =>
+      if cfg_enc_fail cf then (false, c) else    (* rfbDecryptPasswdFromFile fails: "Couldn't read password file" *)
       match decrypt_passwd_file content with
       | None => (false, c)
       | Some pw =>
@@ -524,6 +544,7 @@ Definition screen_passwords (s : screen) : list (list N) :=
   | PwNone => []
   | PwList pws _ => pws
   | PwFile content => match decrypt_passwd_file content with Some pw => [pw] | None => [] end
+  | PwCustom => []
   end.
 (* rfbAuthProcessClientMessage *)
 Definition on_response (cf : cfg) (s : screen) (e : env) (c : conn) (resp : list N) : env * conn :=
@@ -656,6 +677,8 @@ Inductive op :=
   | OConn (s : nat) (rev : bool) (bytes : list N) (eof : bool)   (* rfbNewClient / reverse connection *)
   | OSend (c : nat) (bytes : list N) (eof : bool)
   | OSetFile (s : nat) (content : list N)                  (* the password file of screen s is rewritten *)
+  | OSetList (s : nat) (pws : list (list N)) (first_vo : Z)   (* authPasswdData / authPasswdFirstViewOnly of a
+                                                                  password-list screen are replaced *)
   | OUdpOn (s : nat)                                       (* the screen's UDP input port is opened *)
   | OUdp (s : nat) (bytes : list N).                       (* a datagram from an arbitrary (unauthenticated) peer *)
 
@@ -675,7 +698,7 @@ Definition with_hs (p : proc) (o : option hstore) : proc :=
   end.
 
 Definition new_conn (s : nat) (rev : bool) : conn :=
-  mkConn s rev StPV 0%Z [] [] None false server_version [] [] [].
+  mkConn s rev StPV 0%Z [] [] None false server_version [] [] [] None.
 
 Definition step (cf : cfg) (p : proc) (o : op) : proc :=
   match o with
@@ -699,6 +722,17 @@ Definition step (cf : cfg) (p : proc) (o : op) : proc :=
           match s_pw scr with
           | PwFile _ =>
               mkProc (p_hs p) (set_nth (p_screens p) s (mkScreen (PwFile content) (s_w scr) (s_h scr) (s_name scr)))
+                     (p_conns p) (p_rand p) (p_err p) (p_unmod p) (p_udp p) (p_input p)
+          | _ => flag_err p
+          end
+      | None => flag_err p
+      end
+  | OSetList s pws fvo =>
+      match nth_error (p_screens p) s with
+      | Some scr =>
+          match s_pw scr with
+          | PwList _ _ =>
+              mkProc (p_hs p) (set_nth (p_screens p) s (mkScreen (PwList pws fvo) (s_w scr) (s_h scr) (s_name scr)))
                      (p_conns p) (p_rand p) (p_err p) (p_unmod p) (p_udp p) (p_input p)
           | _ => flag_err p
           end
@@ -735,7 +769,9 @@ Definition granted (c : conn) : bool :=
 (* the client has been told that authentication succeeded, or has been given ServerInit *)
 Definition told_in (c : conn) : Prop := In TokOK (c_told c) \/ In TokSInit (c_told c).
 Definition proved (c : conn) : Prop :=
-  exists r pw, c_resp c = Some r /\ In pw (c_pws c) /\ vnc_encrypt pw (c_sent c) = Some r.
+  exists r, c_resp c = Some r /\
+    ((exists pw, In pw (c_pws c) /\ vnc_encrypt pw (c_sent c) = Some r) \/   (* the two built-in callbacks *)
+     c_judged c = Some (c_sent c, r)).                                        (* any other callback said TRUE *)
 
 (* observation of one connection, printed by the drivers *)
 Definition st_code (s : cstate) : Z :=
